@@ -32,7 +32,8 @@ THEOREMS = [
     "C09.comb_raise_delivered", "C09.no_escape_projection", "C09.no_escape_catch_handler", "C09.no_escape_seq_factory",
     "C09.group_by_until_raise_paths", "C09.group_by_until_failure_path",
 ]
-RULE = ("inject: for every catalogued (operator, callback) an exception (InjectedError, StopIteration, KeyError, a custom Exception subclass, and the "
+RULE = ("inject: for every catalogued (operator, callback) an exception (InjectedError, StopIteration, KeyError, TypeError, ValueError, AttributeError, "
+        "IndexError, ZeroDivisionError, RuntimeError, AssertionError, LookupError, a custom Exception subclass, and the "
         "library's own SequenceContainsNoElementsError / DisposedException / WouldBlockException / ArgumentOutOfRangeException) raised at the k-th "
         "invocation (k = 0..4) of that callback - the very exception object must reach the subscriber -, over "
         "Subjects (escape = exception out of subject.on_next), hot and cold TestScheduler observables (escape = exception out of the "
@@ -163,7 +164,11 @@ class _Watchdog(BaseException):
     pass
 
 
-EXC_KINDS = ["injected", "StopIteration", "KeyError", "Custom", "NoElements", "Disposed", "WouldBlock", "ArgumentOutOfRange"]
+EXC_KINDS = ["injected", "StopIteration", "KeyError", "Custom", "NoElements", "Disposed", "WouldBlock", "ArgumentOutOfRange",
+             "TypeError", "ValueError", "AttributeError", "IndexError", "ZeroDivisionError", "RuntimeError", "AssertionError", "LookupError"]
+BUILTIN_EXC = {"TypeError": TypeError, "ValueError": ValueError, "AttributeError": AttributeError, "IndexError": IndexError,
+               "ZeroDivisionError": ZeroDivisionError, "RuntimeError": RuntimeError, "AssertionError": AssertionError,
+               "LookupError": LookupError}
 
 
 class CustomError(Exception):
@@ -190,6 +195,8 @@ def make_exc(kind, name):
         return X.WouldBlockException()
     if kind == "ArgumentOutOfRange":
         return X.ArgumentOutOfRangeException()
+    if kind in BUILTIN_EXC:
+        return BUILTIN_EXC[kind](name)
     raise ValueError(kind)
 
 
@@ -479,7 +486,10 @@ def gen_inject(rng, entry, cbname):
          "a": gen_timeline(rng, entry in NEEDS_ERROR_SOURCE or (cbname == "on_error"), force_complete=(cbname == "on_completed")),
          "b": gen_timeline(rng), "inner": inner}
     r = rng.random()  # StopIteration / KeyError are over-weighted: iterator- and mapping-based operators catch them internally
-    c["exc"] = "injected" if r < 0.4 else ("StopIteration" if r < 0.62 else ("KeyError" if r < 0.74 else rng.choice(EXC_KINDS[3:])))
+    c["exc"] = "injected" if r < 0.3 else ("StopIteration" if r < 0.45 else ("KeyError" if r < 0.55 else rng.choice(EXC_KINDS[3:])))
+    if any(w in cbname for w in ("comparer", "key", "predicate", "mapper", "accumulator")) and rng.random() < 0.35:
+        # built-in classes a library is tempted to catch around comparisons / conversions ("incomparable", "not a number")
+        c["exc"] = rng.choice(["TypeError", "TypeError", "ValueError", "ValueError", "AttributeError", "ZeroDivisionError"])
     if entry == "generate_with_relative_time":
         c["delay"] = rng.choice([0, 0, 5, 10])
     if entry in GROUP_ENTRIES:
